@@ -1,1 +1,297 @@
-// Correspondence suites for property C06. Each suite is a #[test] fn named verif_c06_<suite>.
+// Correspondence suites for property C06 (PRSS: pairwise agreement, step separation, no reuse).
+//
+//   c06_agree    three real endpoints (test_fixture::make_participants), real negotiate over TestWorld gateways,
+//                real cross-shard setup: helper i's right values == helper i+1's left values for many
+//                gates / indices / multi-block widths up to the offset cap; distinctness across
+//                steps, indices and offsets
+//   c06_usedset  the debug-build detectors: same (step, index, offset) drawn twice, indexed vs sequential misuse
+// (c06_pack lives in hooks/context.rs: PrssIndex128 is visible only inside crate::protocol.)
+use std::collections::HashSet;
+
+use generic_array::ArrayLength;
+use ipa_step::StepNarrow;
+use rand_core::RngCore;
+use typenum::{U1, U2, U3, U4, U8, U16, U32, U64, U128, U256, U512, U1024, U2048};
+
+use super::proto::*;
+use crate::{
+    helpers::{Direction, Role, prss_protocol::negotiate, setup_cross_shard_prss},
+    protocol::{
+        Gate, RecordId,
+        context::Context,
+        prss::{Endpoint, SharedRandomness},
+    },
+    sharding::ShardConfiguration,
+    test_fixture::{Runner, TestWorld, TestWorldConfig, WithShards, make_participants},
+};
+
+fn gate(name: &str) -> Gate {
+    Gate::default().narrow(name)
+}
+
+fn both<Z: ArrayLength>(p: &Endpoint, g: &Gate, index: u32, chunks: usize) -> (Vec<u128>, Vec<u128>) {
+    let prss = p.indexed(g);
+    let mut l = vec![];
+    let mut r = vec![];
+    for (a, b) in prss.generate_chunks_iter::<_, Z>(index).take(chunks) {
+        l.extend(a);
+        r.extend(b);
+    }
+    (l, r)
+}
+
+fn agreement(ps: &[Endpoint; 3], draw: &dyn Fn(&Endpoint) -> (Vec<u128>, Vec<u128>), all: &mut Vec<u128>) -> Result<usize, String> {
+    let vals: Vec<(Vec<u128>, Vec<u128>)> = ps.iter().map(|p| draw(p)).collect();
+    for i in 0..3 {
+        if vals[i].1 != vals[(i + 1) % 3].0 {
+            return Err(format!("disagree helper {i} right vs helper {} left", (i + 1) % 3));
+        }
+        all.extend(vals[i].1.iter().copied());
+    }
+    Ok(vals[0].0.len())
+}
+
+fn distinct(all: &[u128]) -> bool {
+    let s: HashSet<u128> = all.iter().copied().collect();
+    s.len() == all.len()
+}
+
+fn agree_z<Z: ArrayLength>(seed: u64, gname: &str, index: u32, chunks: usize) -> String {
+    let mut rng = Rng(seed);
+    let ps = make_participants(&mut rng);
+    let g = gate(gname);
+    let mut all = vec![];
+    let n = match agreement(&ps, &|p| both::<Z>(p, &g, index, chunks), &mut all) {
+        Ok(n) => n,
+        Err(e) => return e,
+    };
+    // step / index separation: another gate with the same index, and the same gate with neighbouring indices
+    let g2 = gate(&format!("{gname}x"));
+    let g3 = g.narrow("sub");
+    for (gg, ix) in [(&g2, index), (&g3, index), (&g, index.wrapping_add(1)), (&g, index.wrapping_sub(1)), (&g, index ^ 0x8000_0000)] {
+        if let Err(e) = agreement(&ps, &|p| both::<U1>(p, gg, ix, 1), &mut all) {
+            return e;
+        }
+    }
+    format!("agree {n} {}", if distinct(&all) { "distinct" } else { "repeated" })
+}
+
+fn exec_agree(req: &str) -> String {
+    let t: Vec<&str> = req.split(' ').collect();
+    match t[0] {
+        "c06.agree" => {
+            let seed: u64 = t[1].parse().unwrap();
+            let index: u32 = t[3].parse().unwrap();
+            let chunks: usize = t[5].parse().unwrap();
+            macro_rules! z {
+                ($($n:literal => $t:ty),*) => {
+                    match t[4] { $( stringify!($n) => agree_z::<$t>(seed, t[2], index, chunks), )* w => panic!("harness: unsupported width {w}") }
+                };
+            }
+            z!(1 => U1, 2 => U2, 3 => U3, 4 => U4, 8 => U8, 16 => U16, 32 => U32, 64 => U64, 128 => U128, 256 => U256,
+               512 => U512, 1024 => U1024, 2048 => U2048)
+        }
+        "c06.negotiate" => {
+            let seed: u64 = t[1].parse().unwrap();
+            let r = block_on_timeout(60, async move {
+                let world = TestWorld::new_with(TestWorldConfig::default().with_seed(seed));
+                let g = gate("c06negotiate");
+                let mut rngs = [Rng(seed ^ 1), Rng(seed ^ 2), Rng(seed ^ 3)];
+                let [r0, r1, r2] = &mut rngs;
+                let (a, b, c) = futures::future::join3(
+                    negotiate(world.gateway(Role::H1), &g, r0),
+                    negotiate(world.gateway(Role::H2), &g, r1),
+                    negotiate(world.gateway(Role::H3), &g, r2),
+                )
+                .await;
+                let ps = [a.unwrap(), b.unwrap(), c.unwrap()];
+                let mut all = vec![];
+                let mut n = 0;
+                for (k, gname) in ["a", "b"].iter().enumerate() {
+                    let gg = gate(gname);
+                    for index in [0u32, 1, 2, u32::MAX] {
+                        match agreement(&ps, &|p| both::<U1>(p, &gg, index.wrapping_add(k as u32 * 7), 1), &mut all) {
+                            Ok(m) => n += 3 * m,
+                            Err(e) => return e,
+                        }
+                    }
+                }
+                format!("agree {n} {}", if distinct(&all) { "distinct" } else { "repeated" })
+            });
+            r.unwrap_or_else(|e| e)
+        }
+        "c06.xshard" => {
+            let seed: u64 = t[1].parse().unwrap();
+            macro_rules! go {
+                ($n:literal) => {
+                    block_on_timeout(60, async move {
+                        let world: TestWorld<WithShards<$n>> = TestWorld::with_shards(TestWorldConfig::default().with_seed(seed));
+                        let g = gate("c06xshard");
+                        let gref = &g;
+                        let wref = &world;
+                        let values: Vec<[(u128, u128); 3]> = world
+                            .semi_honest(std::iter::empty::<crate::ff::boolean_array::BA64>(), |ctx, _| async move {
+                                let gateway = wref.gateway(ctx.role(), ctx.shard_id());
+                                let ep = setup_cross_shard_prss(gateway, gref, ctx.prss(), ctx.clone()).await.unwrap();
+                                ep.indexed(gref).generate_values(RecordId::FIRST)
+                            })
+                            .await;
+                        for s in 0..values.len() {
+                            for i in 0..3 {
+                                if values[s][i] != values[0][i] {
+                                    return format!("disagree shard {s} vs shard 0 at helper {i}");
+                                }
+                                if values[s][i].1 != values[(s + 1) % values.len()][(i + 1) % 3].0 {
+                                    return format!("disagree helper {i} right vs helper {} left (shards {s}/{})", (i + 1) % 3, (s + 1) % values.len());
+                                }
+                            }
+                        }
+                        format!("agree {}", 3 * values.len())
+                    })
+                };
+            }
+            let r = match t[2] {
+                "2" => go!(2),
+                "3" => go!(3),
+                "4" => go!(4),
+                "5" => go!(5),
+                n => panic!("harness: unsupported shard count {n}"),
+            };
+            r.unwrap_or_else(|e| e)
+        }
+        _ => panic!("harness: unknown request {req}"),
+    }
+}
+
+#[test]
+fn verif_c06_agree() {
+    run_suite(
+        "c06_agree",
+        |rng, thorough| {
+            let mut out = vec![];
+            let seed = |rng: &mut Rng| rng.below(1 << 40);
+            // width x chunks reaching exactly the cap (offsets 0..=2048 are valid: 2049 blocks), and one past it
+            for (z, chunks) in [
+                (1usize, 1usize), (1, 2), (2, 1), (3, 1), (4, 2), (8, 3), (16, 1), (32, 2), (64, 1), (128, 3), (256, 1), (512, 4),
+                (1024, 2), (2048, 1), (1, 2049), (1, 2050), (2, 1024), (2, 1025), (3, 683), (3, 684), (2048, 2), (1024, 3), (256, 9), (16, 129),
+            ] {
+                let index = match z % 3 { 0 => 0u32, 1 => u32::MAX, _ => (rng.next_u64() >> 32) as u32 };
+                out.push(format!("c06.agree {} step{z} {index} {z} {chunks}", seed(rng)));
+            }
+            for _ in 0..(if thorough { 300 } else { 25 }) {
+                let z = *rng.pick(&[1usize, 2, 3, 4, 8, 16, 32, 64]);
+                let chunks = 1 + rng.usize_below(6);
+                let index = (rng.next_u64() >> (32 + rng.below(32))) as u32;
+                out.push(format!("c06.agree {} g{} {index} {z} {chunks}", seed(rng), rng.below(1000)));
+            }
+            for _ in 0..(if thorough { 20 } else { 3 }) {
+                out.push(format!("c06.negotiate {}", seed(rng)));
+            }
+            for n in [2, 3, 4, 5] {
+                for _ in 0..(if thorough { 5 } else { 1 }) {
+                    out.push(format!("c06.xshard {} {n}", seed(rng)));
+                }
+            }
+            out
+        },
+        exec_agree,
+    );
+}
+
+fn exec_used(req: &str) -> String {
+    let t: Vec<&str> = req.split(' ').collect();
+    let mut rng = Rng(0xC06);
+    let ps = make_participants(&mut rng);
+    let p = &ps[0];
+    fn one<Z: ArrayLength>(p: &Endpoint, kind: &str, g: &Gate, index: u32, chunks: usize) {
+        let prss = p.indexed(g);
+        match kind {
+            "ib" => prss.generate_chunks_iter::<_, Z>(index).take(chunks).for_each(drop),
+            "il" => prss.generate_chunks_one_side::<_, Z>(index, Direction::Left).take(chunks).for_each(drop),
+            "ir" => prss.generate_chunks_one_side::<_, Z>(index, Direction::Right).take(chunks).for_each(drop),
+            k => panic!("harness: unknown op {k}"),
+        }
+    }
+    for op in t[1].split(',') {
+        let f: Vec<&str> = op.split(':').collect();
+        let g = gate(f[1]);
+        if f[0] == "sq" {
+            let n: usize = f[2].parse().unwrap();
+            let (mut l, mut r) = p.sequential(&g);
+            for _ in 0..n {
+                let _ = l.next_u64();
+                let _ = r.next_u64();
+            }
+        } else {
+            let index: u32 = f[2].parse().unwrap();
+            let chunks: usize = f[4].parse().unwrap();
+            match f[3] {
+                "1" => one::<U1>(p, f[0], &g, index, chunks),
+                "2" => one::<U2>(p, f[0], &g, index, chunks),
+                "3" => one::<U3>(p, f[0], &g, index, chunks),
+                "4" => one::<U4>(p, f[0], &g, index, chunks),
+                "8" => one::<U8>(p, f[0], &g, index, chunks),
+                "1024" => one::<U1024>(p, f[0], &g, index, chunks),
+                z => panic!("harness: unsupported width {z}"),
+            }
+        }
+    }
+    "ok".into()
+}
+
+#[test]
+fn verif_c06_usedset() {
+    run_suite(
+        "c06_usedset",
+        |rng, thorough| {
+            let mut out: Vec<String> = [
+                "ib:a:0:1:1",
+                "ib:a:0:1:1,ib:a:0:1:1",
+                "ib:a:0:1:1,ib:a:1:1:1,ib:b:0:1:1",
+                "ib:a:0:2:1,ib:a:0:1:1",
+                "ib:a:5:1:3,il:a:5:1:1",
+                "il:a:5:1:1,ir:a:5:1:1",
+                "il:a:5:2:2,il:a:5:4:1",
+                "il:a:5:2:2,ir:a:5:4:1,ib:a:6:4:1",
+                "ir:a:5:3:1,ib:a:5:1:3",
+                "ib:a:4294967295:1:1,ib:a:4294967294:1:1",
+                "sq:a:3",
+                "sq:a:0,sq:a:0",
+                "sq:a:2,ib:a:0:1:1",
+                "sq:a:2,il:a:0:1:1",
+                "ib:a:0:1:1,sq:a:1",
+                "ir:a:9:1:1,sq:a:1",
+                "sq:a:2,sq:b:2,ib:c:0:1:1",
+                "ib:a:0:1:2049",
+                "ib:a:0:1:2050",
+                "il:a:0:1024:2,il:a:0:1:1",
+                "il:a:0:1024:3",
+                "ir:a:7:8:257",
+                "ib:a:1:1:2049,ib:a:1:1:1",
+            ]
+            .iter()
+            .map(|s| format!("c06.used {s}"))
+            .collect();
+            // random short op sequences over two gates and few indices so that collisions are frequent
+            for _ in 0..(if thorough { 2000 } else { 150 }) {
+                let n = 1 + rng.usize_below(5);
+                let ops: Vec<String> = (0..n)
+                    .map(|_| {
+                        let g = *rng.pick(&["a", "b"]);
+                        match rng.below(6) {
+                            0 => format!("sq:{g}:{}", rng.below(4)),
+                            k => {
+                                let kind = ["ib", "il", "ir"][(k % 3) as usize];
+                                let z = *rng.pick(&[1usize, 2, 3, 4, 8]);
+                                format!("{kind}:{g}:{}:{z}:{}", rng.below(3), 1 + rng.below(3))
+                            }
+                        }
+                    })
+                    .collect();
+                out.push(format!("c06.used {}", ops.join(",")));
+            }
+            out
+        },
+        exec_used,
+    );
+}
